@@ -1,0 +1,24 @@
+//go:build verif
+
+// Contracts for package gdef, checked by /verif/engine (gvc).  This file
+// contains comments only; it is compiled only with the "verif" build tag.
+package gdef
+
+// Encode is checked as an encoder: every narrowing conversion that stores an
+// offset or a count must be lossless (GDEF uses 16-bit offsets from the
+// start of the table and a 16-bit mark glyph set count), because the function
+// has no way to refuse loudly other than a panic.
+//@ func (table *Table) Encode() (res []byte)   props: C08
+//@   encoder
+//@   requires table != nil
+//@   requires forall i int :: 0 <= i && i < len(table.MarkGlyphSets) ==> len(table.MarkGlyphSets[i]) <= 65535   // a set of all 65536 glyphs is refused (panic) by the coverage encoder
+//@   may_panic
+//@   opt assume_make=1
+//@   modifies nothing
+//@   loop 0
+//@     invariant total >= 14 && total <= 800000 + 4*len(table.MarkGlyphSets) + 140000*iter && markGlyphSetsDefOffset >= 14
+//@   loop 1
+//@     invariant offs >= 4 && len(buf) >= 14 && (isnil(buf) || fresh(buf))
+//@     free_invariant offs <= 4294967295   // more than 4 GiB of coverage tables: out of scope (A-MEM)
+//@   loop 2
+//@     invariant len(buf) >= 14 && (isnil(buf) || fresh(buf))
